@@ -86,6 +86,7 @@ func (m *CPU) Run(app risc.Application) (int, error) {
 	}()
 	cycle := 0
 	for {
+		m.ctx.VerifTick()
 		cycle++
 		log.Info(m.ctx, "Cycle %d", cycle)
 		m.decodeBus.Connect(cycle)
@@ -140,6 +141,7 @@ func (m *CPU) Run(app risc.Application) (int, error) {
 			cycle++
 			m.writeBus.Connect(cycle)
 			for !m.areWriteUnitsEmpty() || !m.writeBus.IsEmpty() {
+				m.ctx.VerifTick()
 				for _, wu := range m.writeUnits {
 					_ = wu.Cycle(wuReq{-1})
 				}
@@ -158,6 +160,7 @@ func (m *CPU) Run(app risc.Application) (int, error) {
 			fromCycle := cycle
 
 			for {
+				m.ctx.VerifTick()
 				isEmpty := true
 				cycle++
 				for _, eu := range m.executeUnits {
@@ -179,6 +182,7 @@ func (m *CPU) Run(app risc.Application) (int, error) {
 				m.writeBus.Connect(cycle + 1)
 				for _, wu := range m.writeUnits {
 					for !wu.isEmpty() || !m.writeBus.IsEmpty() {
+						m.ctx.VerifTick()
 						_ = wu.Cycle(wuReq{sequenceID})
 					}
 				}
